@@ -519,6 +519,11 @@ def run(ctx):
                        "arguments and arity-increasing mutual recursion; the expected CALL / TAIL-CALL flag is computed per "
                        "call SITE from the surface program (R7RS 3.5) and compared in code order; sequences of sexp_apply "
                        "calls on ONE context (out-of-stack and ordinary errors in between) vs the model's session_z; "
+                       "the real bytecode of every compiled form through the extracted depth-certificate checker (operands "
+                       "above the frame header), sexp_bytecode_max_depth of every loop procedure against its certified depth; "
+                       "non-tail recursion whose every pending call holds 300 operands of one kind (global / local / boxed / "
+                       "closure reference, literal, quoted, lambda, closure, call, opcode result) as operands of a call or of a "
+                       "folded arithmetic, under ASan; "
                        "distinct by program text, all non-trivial")
     if os.environ.get("C05_DEBUG"):
         _b = ctx.broken
@@ -592,7 +597,19 @@ def run(ctx):
     for i in range(nrand):
         g = K.Gen(rng, derived=(i % 2 == 1))
         rand_texts.append(" ".join(K.scm(f) for f in g.program(rng.choice([2, 3, 4]))))
-    hdr, answers = h.run(["PROG " + t for t in texts + rand_texts], timeout=900)
+    # after every loop program: DEPTH <name> = sexp_bytecode_max_depth of each global procedure it defined as
+    # (define (name ..) ..) - the generator's own static operand-depth bound, which make_call's stack check relies on
+    reqs0, prog_at, depth_at = [], [], {}
+    for i, t in enumerate(texts + rand_texts):
+        prog_at.append(len(reqs0))
+        reqs0.append("PROG " + t)
+        if i < nloops:
+            for j, f in enumerate(small[i][0]):
+                if isinstance(f, list) and len(f) > 2 and f[0] == "define" and isinstance(f[1], list) and f[1] and isinstance(f[1][0], str):
+                    depth_at.setdefault(i, []).append((f[1][0], j, len(reqs0)))
+                    reqs0.append("DEPTH " + f[1][0])
+    hdr, answers_all = h.run(reqs0, timeout=900)
+    answers = [answers_all[k] for k in prog_at]
     pair_type = hdr.get("pair-type", 6)
     names = K.Names()
     mreq, plan = [], []
@@ -618,6 +635,16 @@ def run(ctx):
                 w = K.wire_ast(K.sx_parse(a2), names)
                 f["req"] = len(mreq)
                 mreq.append("calls " + K.sx_str(w))
+                # the static operand-depth bound: the model generator's code and the REAL bytecode (translated by
+                # C03's wire_code) through the extracted certificate checker of coq/C05/Depth.v
+                f["dreq"] = len(mreq)
+                mreq.append("depths " + K.sx_str(w))
+                try:
+                    wc = K.wire_code(K.sx_parse(b), names, pair_type)
+                    f["rreq"] = len(mreq)
+                    mreq.append("rdepths " + K.sx_str(wc))
+                except (K.Unsupported, ValueError, IndexError):
+                    pass
             except (K.Unsupported, ValueError, IndexError) as e:
                 f["unsupported"] = str(e)
             ent["forms"].append(f)
@@ -625,6 +652,7 @@ def run(ctx):
     replay_fmt = "echo 'PROG %s' | " + runenv(d) + " " + d + "/embed_c03 | grep -E '^(B|V|E) '"
     bad_inner = []
     nmodel = nunsupported = nsites = 0
+    ndepth = [0]
     for idx, ent in enumerate(plan):
         ctx.count(1, key=("inner", ent["text"]), nontrivial=True)
         isloop = idx < nloops
@@ -639,6 +667,22 @@ def run(ctx):
                 real, model = calls_string(f["bodies"]), mout[f["req"]]
                 if real != model and "model_diff" not in ent:
                     ent["model_diff"] = (real, model)
+                md = mout[f["dreq"]]
+                if "X" in md.split() or md.startswith("ERR"):
+                    ctx.broken("model:depth-certificate", "a code body of the model generator has no depth certificate (%s): %s" % (md[:80], ent["text"][:300]))
+                elif "rreq" in f:
+                    rd = mout[f["rreq"]]
+                    ndepth[0] += 1
+                    f["rdepths"] = rd.split()
+                    if rd.startswith("ERR"):
+                        ndepth[0] -= 1
+                    elif "X" in rd.split():
+                        ctx.broken("correspondence:depth-certificate", "a body of the real bytecode has no depth certificate (an instruction "
+                                   "would pop below its frame header, or two paths reach an instruction at different heights): %s; model %s; %s"
+                                   % (rd[:80], md[:80], ent["text"][:300]))
+                    elif rd != md:
+                        ctx.broken("correspondence:depth", "certified operand depths per code body differ: real bytecode %s, model generator %s: %s"
+                                   % (rd[:80], md[:80], ent["text"][:300]))
             else:
                 nunsupported += 1
         if not isloop:
@@ -689,6 +733,34 @@ def run(ctx):
             bad_inner.append(ent)
         elif ent.get("model_diff"):
             bad_inner.append(ent)
+    # sexp_bytecode_max_depth (the bound the generator computes, vm.c:145-150) must cover the certified depth of the body
+    strict_depth = fix_present(DEPTH_FIX, DEPTH_FIX_SUBJECT)
+    under, margin_hist, ncmp = [], {}, 0
+    for i, lst in sorted(depth_at.items()):
+        ent = plan[i]
+        for name, j, k in lst:
+            m = re.match(r"V \((\d+) (\d+) (\d+)\)$", K.impl_outcome(answers_all[k]))
+            cert = ent["forms"][j].get("rdepths") if j < len(ent["forms"]) else None
+            if not m or not cert or len(cert) < 2 or not cert[1].isdigit():
+                continue
+            ncmp += 1
+            diff = int(m.group(1)) - int(cert[1])
+            margin_hist[diff] = margin_hist.get(diff, 0) + 1
+            # the STACK-REF 3 of a closure creation (vm.c generate_lambda) is a transient slot the generator does not
+            # count: one slot, covered by the +64 of the stack check
+            bodies = ent["forms"][j].get("bodies", [])
+            tol = 1 if len(bodies) > 1 and any(ins[1] == "STACK-REF" for ins in bodies[1]) else 0
+            if diff < -tol:
+                under.append("%s: sexp_bytecode_max_depth %s, certified depth of the body %s: %s" % (name, m.group(1), cert[1], ent["text"][:300]))
+    opdepth_report = dict(strict=strict_depth, procedures_compared=ncmp,
+                          max_depth_minus_certified=dict((str(k), v) for k, v in sorted(margin_hist.items())))
+    if under and strict_depth:
+        ctx.broken("correspondence:max-depth", "sexp_bytecode_max_depth is smaller than the operand depth the body really reaches "
+                   "(%d procedures; the stack check of make_call reserves max_depth+64 slots): %s" % (len(under), under[0]))
+    elif under:
+        opdepth_report["pending_finding"] = "F-C05-3"
+    if ncmp < 100:
+        ctx.broken("correspondence:max-depth", "only %d loop procedures could be compared with their certificates" % ncmp)
     if nmodel < 0.8 * (nmodel + nunsupported):
         ctx.broken("correspondence:coverage", "only %d of %d compiled forms are inside the modelled fragment" % (nmodel, nmodel + nunsupported))
     # ------------------------------------------------------------------ outer: depth probe
@@ -803,6 +875,7 @@ def run(ctx):
             ctx.violation("stack:ensure-min-size", input="(deepapply %d %d)  ; apply of a %d-element list %d frames deep" % (dd, kk, kk, dd),
                           expected="V %d, then V 3" % (dd + kk), observed="%s, %s" % (o[2][:300], o[3][:100]),
                           replay="printf '%%s\\n' '%s' '%s' 'TOP (deepapply %d %d)' | ASAN_OPTIONS=detect_leaks=0 %s %s/embed_c03" % (big[0], big[1], dd, kk, runenv(da), da))
+    operand_depth(ctx, ha, da, strict_depth, opdepth_report, h, exe, pair_type)
     # model of the growth arithmetic: the repaired policy always leaves room (spot check of the extracted function)
     reqs = []
     for top, n, ln in [(600, 2064, 1024), (1000, 100, 1024), (1023990, 100, 1024000), (10, 5000, 1024), (500000, 600000, 524288)]:
@@ -823,7 +896,8 @@ def run(ctx):
     ctx.cov["generator_distribution"] = dict(loop_programs=len(cases), by_callee=dist, by_family=fams, tail_contexts=len(tails),
                                              siblings=len(SIBLINGS), non_tail_controls=len(CONTEXTS) - len(tails),
                                              random_typed_programs=nrand, forms_compared_with_model=nmodel,
-                                             forms_outside_model=nunsupported, call_sites_flag_checked=nsites, iterations_big=N,
+                                             forms_outside_model=nunsupported, call_sites_flag_checked=nsites,
+                                             forms_real_bytecode_depth_certified=ndepth[0], operand_depth=opdepth_report, iterations_big=N,
                                              programs_with_big_N=len([m for m in meta if m[1] == N]), iterations_small=NS,
                                              deep=deep_report, apply_sessions=apply_report, deepapply_grid=len(grid))
     ctx.sample(dict(kind="loop", program=texts[0], outcome=plan[0]["out"]))
@@ -831,11 +905,14 @@ def run(ctx):
     k = [i for i in range(nloops) if cases[i][4] == "spine"]
     if k:
         ctx.sample(dict(kind="spine", program=texts[k[0]][:600], outcome=plan[k[0]]["out"], siblings=plan[k[0]]["sib"]))
-    ctx.assume("chain_step's 'quiet' steps (fp and frame header unchanged by instructions other than calls/returns) are a premise of tail_loop_bounded; proved per opcode of the model VM under 'the operand stack stays above the frame header' (see notes), validated by the depth probe")
+    ctx.assume("tail_loop_space_bounded_partial: the run relation asks at every TAIL-CALL that the procedure entered has a certified "
+               "code body; every body the generator emits has one (theorem generated_code_certified; the extracted checker also runs on "
+               "the real bytecode of every program), but that every procedure value reachable at run time is generator output is not "
+               "proved; CALL / RET are not part of the run relation (non-tail calls inside a loop iteration are validated by the depth probe)")
     ctx.assume("C recursion inside analyze / equal? / write on deep data is outside this check")
     ctx.assume("oos_leaves_context_usable speaks about sexp_apply with fixes/C05-apply-exit-top.patch; on a tree without it the "
                "finding F-C05-2 is recorded as a note (theorem apply_exit_pinned_refuted), not enforced")
-    ctx.trust("harness/embed_c03.c (verif-top = sexp_context_top published by the VM before a foreign call; verif-stack-length; DEPTH = sexp_bytecode_max_depth), harness/embed_c05_apply.c (sexp_apply on one context), props/C05.py context table and surface_sites (which surface positions are tail positions, from R7RS 3.5; the two are cross-checked against each other on every program)")
+    ctx.trust("harness/embed_c03.c (verif-top = sexp_context_top published by the VM before a foreign call; verif-stack-length; DEPTH = sexp_bytecode_max_depth), props/C03.py wire_code (real bytecode dump -> the model's code form, for the depth certificates), harness/embed_c05_apply.c (sexp_apply on one context), props/C05.py context table and surface_sites (which surface positions are tail positions, from R7RS 3.5; the two are cross-checked against each other on every program)")
 
 
 DEEP_FAMILIES = [
@@ -942,6 +1019,147 @@ def deep_recursion(ctx, h, exe, d, maxs, inits, rng):
         if fi == 0:
             ctx.sample(dict(kind="deep", depths=depths[:12] + depths[-8:], outcomes=[outs[3 * j][:40] for j in list(range(12)) + list(range(len(depths) - 8, len(depths)))]))
     return report
+
+
+DEPTH_FIX = os.path.join(os.path.dirname(os.path.dirname(os.path.abspath(__file__))), "fixes", "C05-global-ref-depth.patch")
+DEPTH_FIX_SUBJECT = "counts the stack slot of a global variable reference"
+
+# operand kinds: what fills the operand stack of every pending call.  (kind, definitions, operand text)
+OPERAND_KINDS = [
+    ("global-ref", ["(define g 1)"], "g"),
+    ("literal", [], "7"),
+    ("quoted", [], "(quote sym)"),
+    ("local-ref", [], "n"),
+    ("closure-ref", [], "c"),
+    ("lambda", [], "(lambda () 0)"),
+    ("closure", [], "(lambda () n)"),
+    ("call", ["(define (one) 1)"], "(one)"),
+    ("opcode", [], "(car p)"),
+    ("boxed-local", [], "p"),
+]
+OPERAND_SHAPES = [
+    # name, template of the pending expression: %(rec)s the recursive call (first operand, pushed last), %(ops)s the operands
+    ("call", "(h %(rec)s %(ops)s)"),
+    ("add", "(+ %(rec)s %(ops)s)"),
+]
+
+
+def operand_program(kind, opnd, shape, width):
+    ops = " ".join([opnd] * width)
+    rec = "(f (- n 1) p)"
+    pend = dict(OPERAND_SHAPES)[shape] % dict(rec=rec, ops=ops)
+    if shape == "add" and kind not in ("global-ref", "literal", "local-ref", "closure-ref", "call", "opcode"):
+        return None
+    if shape == "call":
+        body = "(if (= n 0) 0 (+ 1 %s))" % pend
+    else:
+        body = "(if (= n 0) 0 (+ 1 (- %s (+ %s))))" % (pend, ops)
+    inner = "(lambda (n p) %s)" % body
+    if kind == "boxed-local":
+        inner = "(lambda (n p) (set! p (cons n p)) %s)" % body      # the parameter p is assigned: boxed, read by LOCAL-REF; CDR
+    if kind == "closure-ref":
+        return "(define f (let ((c 5)) (set! c 6) %s))" % inner
+    return "(define f %s)" % inner
+
+
+def operand_depth(ctx, ha, da, strict, report, h, exe, pair_type):
+    """The generator's operand-depth bound against the stack: non-tail recursion whose every pending call holds WIDTH
+    operands of one kind (global / local / closure reference, literal, lambda, call result ..) on its operand stack,
+    under ASan with poisoned free chunks, one process per kind.  make_call reserves sexp_bytecode_max_depth+64 slots; an
+    operand the generator does not count is written past that reservation (F-C05-3: global references).  The same
+    programs on the default build: sexp_bytecode_max_depth of f against the certified depth of its real bytecode (wide
+    bodies: a bound that saturates or drifts shows here although the +64 still hides it from the run)."""
+    defs0 = ["(define (h a . r) a)"]
+    progs = []
+    for kind, defs, opnd in OPERAND_KINDS:
+        for shape, tmpl in OPERAND_SHAPES:
+            for width in ([300, 1500] if (kind, shape) in (("local-ref", "call"), ("literal", "call"), ("global-ref", "call")) else [300]):
+                prog = operand_program(kind, opnd, shape, width)
+                if prog is not None:
+                    progs.append((kind, shape, width, defs, opnd, prog))
+    # inner: max_depth of f vs the certificate of its real code
+    reqs, at = ["TOP " + x for x in defs0], []
+    for kind, shape, width, defs, opnd, prog in progs:
+        reqs += ["TOP " + x for x in defs]
+        at.append(len(reqs))
+        reqs += ["PROG " + prog, "DEPTH f"]
+    _, ans = h.run(reqs, timeout=600)
+    names = K.Names()
+    mreq, midx = [], []
+    for n, k in enumerate(at):
+        bl = [t for tag, t in ans[k]["lines"] if tag == "B"] if k < len(ans) else []
+        try:
+            mreq.append("rdepths " + K.sx_str(K.wire_code(K.sx_parse(bl[-1]), names, pair_type)))
+            midx.append(n)
+        except (K.Unsupported, ValueError, IndexError):
+            pass
+    mo = ctx.run_model(exe, mreq) if mreq else []
+    ntie, short = 0, []
+    for n, line in zip(midx, mo):
+        kind, shape, width, defs, opnd, prog = progs[n]
+        m = re.match(r"V \((\d+) (\d+) (\d+)\)$", K.impl_outcome(ans[at[n] + 1])) if at[n] + 1 < len(ans) else None
+        rd = line.split()
+        if not m or len(rd) < 2 or not all(x.isdigit() for x in rd[1:]):
+            if "X" in rd:
+                ctx.broken("correspondence:depth-certificate", "real bytecode of the operand-kind program %s/%s has no depth certificate: %s" % (kind, shape, line[:80]))
+            continue
+        ntie += 1
+        cert = max(int(x) for x in rd[1:])
+        if int(m.group(1)) < cert - 1:
+            short.append((kind, "%s/%s width %d: sexp_bytecode_max_depth %s, certified depth of the real body %d" % (kind, shape, width, m.group(1), cert)))
+    report["operand_kind_bodies_compared"] = ntie
+    # on a tree without the F-C05-3 fix every global reference - the operator of each call included - is uncounted, so a
+    # shortfall of any kind of body can be that finding: enforced only in strict mode (the runs below are enforced per kind)
+    hard = [t for k, t in short if strict]
+    if short and not strict:
+        report["pending_finding"] = "F-C05-3"
+    if hard:
+        ctx.broken("correspondence:max-depth", "sexp_bytecode_max_depth is smaller than the operand depth the body really reaches "
+                   "(the stack check of make_call reserves max_depth+64 slots): " + "; ".join(hard[:4]))
+    if ntie < len(progs) // 2:
+        ctx.broken("correspondence:max-depth", "only %d of %d operand-kind bodies could be compared with their certificates" % (ntie, len(progs)))
+    # outer: the runs
+    nrun, pending = 0, []
+    for kind, shape, width, defs, opnd, prog in progs:
+        pre = ["TOP " + x for x in defs0 + defs + [prog]]
+        depths = [3, 10, 200] if width < 1000 else [2, 40]
+        calls = ["TOP (f %d (quote (1)))" % k for k in depths] + ["TOP (+ 1 2)"]
+        _, answers = ha.run(pre + calls, timeout=300, extra_env={"ASAN_OPTIONS": "detect_leaks=0:abort_on_error=0:exitcode=97"})
+        o = [K.impl_outcome(a).split("\n")[0][:120] for a in answers[len(pre):]]
+        nrun += 1
+        ctx.count(1, key=("operand-depth", kind, shape, width), nontrivial=True)
+        want = ["V %d" % k for k in depths] + ["V 3"]
+        if o == want:
+            continue
+        bad = [j for j in range(len(want)) if j >= len(o) or o[j] != want[j]][0]
+        short_prog = prog.replace(" ".join([opnd] * width), " ".join([opnd] * 3) + " ..x%d.. " % width)
+        call = calls[min(bad, len(calls) - 1)][4:]
+        replay = "printf '%%s\\n' %s | ASAN_OPTIONS=detect_leaks=0 %s %s/embed_c03" % (" ".join("'%s'" % sq(q) for q in pre + calls), runenv(da), da)
+        if not strict and kind == "global-ref":
+            pending.append("%s %s: expected %s observed %s" % (short_prog, call, want[bad], (o + ["CRASH"])[bad]))
+            continue
+        ctx.violation("stack:operand-depth:%s:%s" % (kind, shape), input=short_prog + " " + call + "  ; every pending call holds %d operands of kind %s" % (width, kind),
+                      expected=", ".join(want), observed=", ".join(o) or "CRASH", replay=replay)
+    report["operand_kind_runs"] = nrun
+    if pending:
+        report["pending_finding"] = "F-C05-3"
+        ctx.note("F-C05-3 (not enforced: fixes/C05-global-ref-depth.patch is not part of the tree under test): the code generator does "
+                 "not count the stack slot of a global variable reference (generate_ref), so sexp_bytecode_max_depth is too small "
+                 "and make_call's stack check reserves too little: a call with many global operands writes past the stack object.  "
+                 "First case: " + pending[0][:900])
+
+
+def fix_present(patch, subject):
+    """is a repair part of the tree under test?  (the patch is applied in the working tree, or a commit with the proposed
+    subject is in its history - then a later change that undoes it is a regression, not the known finding)"""
+    try:
+        r = subprocess.run(["git", "-C", B.REPO, "apply", "--reverse", "--check", patch], capture_output=True, timeout=60)
+        if r.returncode == 0:
+            return True
+        r = subprocess.run(["git", "-C", B.REPO, "log", "--oneline", "-F", "--grep", subject], capture_output=True, text=True, timeout=60)
+        return bool(r.stdout.strip())
+    except (OSError, subprocess.TimeoutExpired):
+        return False
 
 
 APPLY_FIX = os.path.join(os.path.dirname(os.path.dirname(os.path.abspath(__file__))), "fixes", "C05-apply-exit-top.patch")
@@ -1070,6 +1288,10 @@ def replay(ctx, j):
             # a session of sexp_apply calls on one context: every call must leave the context top at the entry top (0)
             tops = re.findall(r"^(V -?\d+|E [a-z-]+) top=(-?\d+) len=", r.stdout, re.M)
             bad = not tops or any(int(t) != 0 for _, t in tops) or "CRASH" in out
+        elif c.get("sig", "").startswith("stack:operand-depth"):
+            # definitions answer V #<undef>; the calls must answer exactly the expected values, in order
+            want = [x.strip() for x in str(c.get("expected", "")).split(",")]
+            bad = [x.strip() for x in last if "#<undef>" not in x][-len(want):] != want
         elif c.get("sig", "").startswith("tail:call-at-tail-site"):
             real = [l for l in r.stdout.split("\n") if l.startswith("B ")]
             try:
